@@ -98,19 +98,29 @@ def run(tier):
     rounds = 1 if tier == 'quick' else 6
     schedc = collections.Counter()
     # ------------------------------------------------------------------ part A: chunk schedules and sources
+    pinned = [
+        # witnesses of the known findings, replayed on every run with the schedule that exposes them
+        {'bytes': '<?xml version="1.0" encoding="UTF-16"?><a>t</a>'.encode('utf-16'), 'kind': 'pinned:F05', 'enc': 'UTF-16LE', 'ns': True, 'tags': set(), 'sched': ['1', 'l1,*']},
+        {'bytes': b'<?p?><?xml version="1.0" encoding="ISO-8859-1"?><a>' + b'x' * 500 + b'\xe9</a>', 'kind': 'pinned:F28', 'enc': 'ISO-8859-1', 'ns': True, 'tags': set(), 'sched': ['f400:1']},
+        {'bytes': '<a xmlns:p1="u">1#{a\u2028<p1:M xml:a:b="1"'.encode('utf-8'), 'kind': 'pinned:F27', 'enc': 'UTF-8', 'ns': True, 'tags': set(), 'sched': ['f4:1', 'f4:2']},
+    ]
     for rd in range(rounds):
         items = make_inputs(ck, n // rounds, rd)
+        if rd == 0:
+            items = pinned + items
         cases = []
         meta = {}
         for i, it in enumerate(items):
             r = core.rng(ck.seed, PID, 'cfg', rd, i)
-            api = r.choice(['sax2', 'sax2', 'dom', 'sax1', 'domls'])
+            api = r.choice(['sax2', 'sax2', 'dom', 'sax1', 'domls']) if 'sched' not in it else 'sax2'
             base = dict(api=api, ns=1 if it['ns'] else 0, cont=0)   # continue-after-fatal is documented as undetermined: not compared
             cid = 'r%da%d' % (rd, i)
             cases.append(core.Case(cid + '.mem', 'parse', base).doc(it['bytes']))
             meta[cid + '.mem'] = (i, 'mem')
             scheds = list(SCHEDULES)
             r.shuffle(scheds)
+            if 'sched' in it:
+                scheds = it['sched']
             for s in scheds[:7]:
                 if '%d' in s:
                     s = s % r.randint(1, 10 ** 6)
@@ -152,6 +162,12 @@ def run(tier):
             enc = it['enc']
             first_short = how.startswith('chunk') and first_read(c.opt['chunk']) < decl_end(it['bytes'])
             cls = 'short-first-read' if first_short else '%s:%s' % (how.split(':')[0], d[0])
+            # a byte sequence that cannot be decoded is reported when the block containing it is transcoded, which can be up to a
+            # buffer ahead of the scan position: with two fatal defects in one input, which is reported first depends on chunking
+            fe_a = next((e for e in b[1] if e[0] == 'F'), None)
+            fe_b = next((e for e in s[1] if e[0] == 'F'), None)
+            if not first_short and fe_a and fe_b and fe_a != fe_b and 'XML4CErrors' in (fe_a[1], fe_b[1]):
+                cls = 'decode-error-lookahead'
             ck.violation('C04:differs:%s' % cls, 'result differs from the one-shot parse (%s; %s): %s' % (how, it['kind'], d[1][:300]),
                          {'case': c.to_json(), 'baseline_case': base_sig[i][1].to_json(), 'diff': d, 'kind': it['kind'], 'encoding': enc})
     # ------------------------------------------------------------------ part B: slide constructs across buffer boundaries
